@@ -8,6 +8,14 @@ If we do, like in MySQL lexer, the new rules like `DATASOURCE = r'\bDATASOURCE\b
 Then, for an input `DATASOURCE`, the last matched regexp is `STRING`, and the token is incorrectly classified 
 as a string.
 """
+class Lexeme(str):
+    """A decoded token value that remembers the source text it was read from (used to store raw queries verbatim)"""
+    def __new__(cls, value, raw=None):
+        obj = super().__new__(cls, value)
+        obj.raw = raw
+        return obj
+
+
 def _unescape(body, pattern):
     # decode the body of a string literal in one left-to-right pass: \' -> ', \" -> ", '' -> ',
     # any other back-slash pair is kept as it is
@@ -332,12 +340,12 @@ class MindsDBLexer(Lexer):
 
     @_(r"'(?:\\.|[^'])*(?:''(?:\\.|[^'])*)*'")
     def QUOTE_STRING(self, t):
-        t.value = "'" + _unescape(t.value[1:-1], r"\\(.)|''") + "'"
+        t.value = Lexeme("'" + _unescape(t.value[1:-1], r"\\(.)|''") + "'", raw=t.value)
         return t
 
     @_(r'"(?:\\.|[^"])*"')
     def DQUOTE_STRING(self, t):
-        t.value = '"' + _unescape(t.value[1:-1], r"\\(.)") + '"'
+        t.value = Lexeme('"' + _unescape(t.value[1:-1], r"\\(.)") + '"', raw=t.value)
         return t
 
     @_(r'\n+')
@@ -350,6 +358,7 @@ class MindsDBLexer(Lexer):
        r'@"[a-zA-Z_.$][^"]*"'
        )
     def VARIABLE(self, t):
+        raw = t.value
         t.value = t.value.lstrip('@')
 
         if t.value[0] == '"':
@@ -358,6 +367,7 @@ class MindsDBLexer(Lexer):
             t.value = t.value.strip('\'')
         elif t.value[0] == "`":
             t.value = t.value.strip('`')
+        t.value = Lexeme(t.value, raw=raw)
         return t
 
     @_(r'@@[a-zA-Z_.$]+',
@@ -366,6 +376,7 @@ class MindsDBLexer(Lexer):
        r'@@"[a-zA-Z_.$][^"]*"'
        )
     def SYSTEM_VARIABLE(self, t):
+        raw = t.value
         t.value = t.value.lstrip('@')
 
         if t.value[0] == '"':
@@ -374,6 +385,7 @@ class MindsDBLexer(Lexer):
             t.value = t.value.strip('\'')
         elif t.value[0] == "`":
             t.value = t.value.strip('`')
+        t.value = Lexeme(t.value, raw=raw)
         return t
 
     def error(self, t):
